@@ -221,3 +221,61 @@ from contracts import C12 as _c12      # noqa: E402
 
 for _n in (3, 4):
     _c12._path_unit(_n, prop="C29")
+
+
+# ------------------------------------------------------------------ evaluate_k_path: the wiring around run()
+@unit("C29", "evaluate_k_path: path built from the nodes (or the given one), named quantities + own tabulators in path mode, one run() over the path", scope="shape:with / without a given path", expect_min=3)
+def _ekp(U):
+    import types
+    FE = "wannierberri/evaluate_k.py"
+    calls = {}
+
+    class TA:
+        def __init__(self, tabulators=None, mode=None, ibands=None):
+            self.tabulators, self.mode, self.ibands = dict(tabulators), mode, ibands
+
+    def run(system, grid=None, calculators=None, parallel=None, **kw):
+        calls["run"] = (system, grid, calculators, parallel, kw)
+        return types.SimpleNamespace(results={"tabulate": ("TAB-OF", grid)})
+
+    class PathStub:
+        @staticmethod
+        def from_nodes(system, nodes=None, labels=None, length=None):
+            calls["from_nodes"] = (system, nodes, labels, length)
+            return ("PATH", tuple(nodes))
+    avail = {"energy": "TAB-energy", "berry_curvature": "TAB-berry"}
+    g = dict(available_quantities=avail, tabulate=types.SimpleNamespace(TabulatorAll=TA), run=run)
+    f = U.fn(FE, "evaluate_k_path", globs=g, model=False, rewrite_comps=False)
+    import sys as _sys
+    # `from .grid import Path` inside the function: give it the stub through a module object
+    import wannierberri.grid as _wg
+
+    def body():
+        calls.clear()
+        real_Path = _wg.Path
+        _wg.Path = PathStub
+        try:
+            f.raw.__globals__["__package__"] = "wannierberri"
+            f.raw.__globals__["__name__"] = "wannierberri.evaluate_k"
+            out = f("SYS", nodes=[[0, 0, 0], [0.5, 0, 0]], labels=["G", "X"], length=77, quantities=["energy"], tabulators={"mine": "TAB-mine"}, ibands=[1], parallel="PAR", extra=1)
+        finally:
+            _wg.Path = real_Path
+        path, res = out
+        system, grid, calcs, par, kw = calls["run"]
+        ta = calcs["tabulate"]
+        U.ensure("no path given: Path.from_nodes(system, nodes, labels, length) is built and returned with the result",
+                 calls["from_nodes"] == ("SYS", [[0, 0, 0], [0.5, 0, 0]], ["G", "X"], 77) and path[0] == "PATH")
+        U.ensure("one run() over that path with a single TabulatorAll in path mode holding the user's tabulators and the named quantities, band selection and extra options forwarded",
+                 system == "SYS" and grid is path and list(calcs) == ["tabulate"] and ta.mode == "path" and ta.tabulators == {"mine": "TAB-mine", "energy": "TAB-energy"}
+                 and ta.ibands == [1] and par == "PAR" and kw == {"extra": 1} and res == ("TAB-OF", path))
+        calls.clear()
+        out2 = f("SYS", path="GIVEN", quantities=["berry_curvature"])
+        U.ensure("a given path is used as it is and only the table is returned", "from_nodes" not in calls and calls["run"][1] == "GIVEN" and out2 == ("TAB-OF", "GIVEN"))
+        try:
+            f("SYS", path="GIVEN", quantities=["no-such-quantity"])
+            ok = False
+        except ValueError:
+            ok = True
+        U.ensure("unknown named quantities are refused", ok)
+    U.run(body, check_feasible=False)
+    U.external("run() over a Path: K-points from Path.get_K_list, results re-ordered by TABresult.self_to_path (units above); per-k independence of the k-list transform: C02")
